@@ -72,7 +72,8 @@ class Basis:
         op = rng.choice(["*", "/", "*", "/", "**"] + (["//"] if floordiv else []))
         a = self.tree(rng, depth - 1, n, floordiv)
         if op == "**":
-            return ("**", a, rng.randint(1, 3))
+            # high powers only on leaves (magnitudes stay far from overflow)
+            return ("**", a, rng.randint(1, 6) if a[0] == "leaf" else rng.randint(1, 3))
         return (op, a, self.tree(rng, depth - 1, n, floordiv))
 
     def same_dimension_pair(self, rng, n, max_types=3, max_exp=3, allow_dleaf=True):
@@ -262,6 +263,7 @@ def evaluate(table, spec, cls, container, on_node, n=None):
         except Exception as e:
             raise EvalError(spec, e)
         m = Model(dims.times(ma.dim, k), [x**k for x in ma.mags], ma.nops + k)
+        _range_guard(spec, m)
         r = on_node(spec, obj, m, ((a, ma),))
         return obj, (r or m)
     a, ma = evaluate(table, spec[1], cls, container, on_node, n)
@@ -285,8 +287,19 @@ def evaluate(table, spec, cls, container, on_node, n=None):
         m = Model(dims.combine(ma.dim, mb.dim, 1), [x * y for x, y in zip(ma.mags, mb.mags)], ma.nops + mb.nops + 1)
     else:
         m = Model(dims.combine(ma.dim, mb.dim, -1), [x / y if y else None for x, y in zip(ma.mags, mb.mags)], ma.nops + mb.nops + 1)
+    _range_guard(spec, m)
     r = on_node(spec, obj, m, ((a, ma), (b, mb)))
     return obj, (r or m)
+
+
+_BIG = Fr(10) ** 120
+
+
+def _range_guard(spec, m):
+    """Magnitudes near the float overflow / underflow range are outside the examined input class."""
+    for x in m.mags:
+        if x is not None and x != 0 and (abs(x) > _BIG or abs(x) < 1 / _BIG):
+            raise Degenerate(spec)
 
 
 class Degenerate(Exception):
